@@ -47,9 +47,9 @@ def r1_numbering(R) -> None:
     start = kwarg(en, 'start') or (en.args[1] if len(en.args) > 1 else None)
     R.check(start is not None and is_const(start, 1), BFD, f'numbering-start:{text(start) if start is not None else 0}', 'variable numbers start at 1 (Fortran rows)',
             f'enumerate(..., start={text(start) if start is not None else 0}): variable numbers must start at 1', where=f.where(ds[0]))
-    ch = en.args[0]
-    order = [text(a) for a in ch.args] if is_call(ch, 'itertools.chain') else None
-    R.check(order == ['endogenous', 'exogenous', 'parameters', 'errors'], BFD, f'numbering-order:{order}',
+    # which name lists are chained, in which order: read on values (C03.R5 owns the reader)
+    order = c03.numbering_order(R, f, f.symexec(deep=True))
+    R.check(order == ['ENDOGENOUS', 'EXOGENOUS', 'PARAMETER', 'ERROR'], BFD, f'numbering-order:{order}',
             'numbering follows NAMES = ENDOGENOUS + EXOGENOUS + PARAMETERS + ERRORS', f'variables are numbered in the order {order}', where=f.where(ds[0]))
     tg = [x.id for x in ast.walk(dc.generators[0].target) if isinstance(x, ast.Name)]
     R.check(len(tg) == 2 and text(dc.key) == tg[1] and text(dc.value) == tg[0], BFD, 'numbering-map', 'the map is name -> number', f'`{text(dc)[:60]}`', where=f.where(ds[0]))
@@ -64,8 +64,12 @@ def r1_numbering(R) -> None:
     fm = [x for x in ast.walk(f.fi.node) if method_call(x, 'format') and text(x.func.value) == 'FORTRAN_TEMPLATE']
     if fm:
         kws = {k.arg: text(k.value) for k in fm[0].keywords}
+        kwv = {k.arg: k.value for k in fm[0].keywords}
         for nm in ('endogenous', 'exogenous', 'parameters', 'errors'):
-            R.check(kws.get(nm) == f"create_integer_array_definition({nm}, '{nm}')", BFD, f'array-field:{nm}:{kws.get(nm)}', f'{{{nm}}} is the index array of the {nm} names',
+            # which names go in is decided on values by C03.R5 (called above); here: the array is built by the helper, under its own label
+            v_ = kwv.get(nm)
+            okf = is_call(v_, 'create_integer_array_definition') and len(v_.args) == 2 and is_const(v_.args[1], nm)
+            R.check(okf, BFD, f'array-field:{nm}:{kws.get(nm)}', f'{{{nm}}} is the index array of the {nm} names',
                     f'template field {nm} receives `{kws.get(nm)}`', where=f.fi.where)
         for nm in ('lags', 'leads'):
             R.check(kws.get(nm) == nm, BFD, f'field:{nm}', f'{{{nm}}} receives {nm}', f'template field {nm} receives `{kws.get(nm)}`', where=f.fi.where)
